@@ -940,6 +940,27 @@ func (r *ownRun) doAssign(lhs, rhs []ast.Expr, st *ownState, last *ownOutcome, p
 			if !r.assign(l, c, ns, pos) {
 				return nil
 			}
+			// nil-ness of error locals through literals and copies
+			if lid, isL := unparen(l).(*ast.Ident); isL && lid.Name != "_" {
+				if t := o.p.TypeOf(lid); t != nil && isErrType(t) {
+					if lk := o.keyOf(lid); lk != "" {
+						switch {
+						case o.p.isNilExpr(rhs[i]):
+							ns.Pend[lk] = "nil"
+						default:
+							if rid, isR := unparen(rhs[i]).(*ast.Ident); isR {
+								if rk := o.keyOf(rid); rk != "" && (st.Pend[rk] == "nil" || st.Pend[rk] == "nonnil") {
+									ns.Pend[lk] = st.Pend[rk]
+								} else if ns.Pend[lk] == "nil" || ns.Pend[lk] == "nonnil" {
+									delete(ns.Pend, lk)
+								}
+							} else if soleCall([]ast.Expr{rhs[i]}) == nil && (ns.Pend[lk] == "nil" || ns.Pend[lk] == "nonnil") {
+								delete(ns.Pend, lk)
+							}
+						}
+					}
+				}
+			}
 		}
 		if len(rhs) == 1 && last != nil {
 			if call := soleCall(rhs); call != nil {
@@ -1670,6 +1691,33 @@ func (o *Own) retErrVars(f *Func) map[string]bool {
 			return true
 		})
 	}
+	// error locals that are copied into other error locals (result temporaries of an inlined helper,
+	// "outErr = err"): their nil-ness decides later tests of the copy, so it is tracked as well
+	walkBody(f, func(n ast.Node) bool {
+		as, ok := n.(*ast.AssignStmt)
+		if !ok || len(as.Lhs) != len(as.Rhs) {
+			return true
+		}
+		for i, l := range as.Lhs {
+			lid, isL := unparen(l).(*ast.Ident)
+			rid, isR := unparen(as.Rhs[i]).(*ast.Ident)
+			if !isL || !isR || lid.Name == "_" {
+				continue
+			}
+			if t := o.p.TypeOf(lid); t == nil || !isErrType(t) {
+				continue
+			}
+			if v, isVar := o.p.ObjOf(rid).(*types.Var); isVar && !v.IsField() {
+				if k := o.keyOf(rid); k != "" {
+					m[k] = true
+				}
+				if k := o.keyOf(lid); k != "" {
+					m[k] = true
+				}
+			}
+		}
+		return true
+	})
 	o.retErr[f] = m
 	return m
 }
